@@ -227,8 +227,18 @@ func (c *Ctx) CheckRets(which, rulePrefix string, rr *interp.RunResult, sel func
 				continue
 			}
 			n++
-			if d := c.evalReq(e, ret.Atoms, nil, r); d != "" && diag == "" {
+			atoms := ret.Atoms
+			if NilErr(e)(ret) {
+				atoms = successAtoms(e, ret)
+			}
+			if d := c.evalReq(e, atoms, nil, r); d != "" && diag == "" {
 				diag = d
+				if os.Getenv("VERIF_DEBUG") != "" {
+					fmt.Printf("DEBUG %s/%s fails on a return class: %s\n", rulePrefix, r.Name, d)
+					for _, at := range atoms {
+						fmt.Printf("   | %s\n", e.T.String(at))
+					}
+				}
 			}
 		}
 		rule := rulePrefix + "/" + r.Name
@@ -248,8 +258,60 @@ func NilErr(e *interp.Engine) func(r *interp.Ret) bool {
 		if len(r.Results) == 0 {
 			return true
 		}
-		return e.T.Op(r.Results[len(r.Results)-1]) == "nil"
+		last := r.Results[len(r.Results)-1]
+		if last == 0 {
+			return false
+		}
+		if e.T.Op(last) == "nil" {
+			return true
+		}
+		// a forwarded error of an inner call (tail call): nil iff that call succeeded
+		if _, ok := forwardedCall(e, r); ok {
+			return true
+		}
+		return false
 	}
+}
+
+// forwardedCall returns the call whose error result a return class forwards
+// unchanged, when its outcome is not already known to be a failure.
+func forwardedCall(e *interp.Engine, r *interp.Ret) (term.ID, bool) {
+	if len(r.Results) == 0 {
+		return 0, false
+	}
+	last := r.Results[len(r.Results)-1]
+	if last == 0 {
+		return 0, false
+	}
+	t := last
+	for strings.HasPrefix(e.T.Op(t), "extract:") {
+		t = e.T.Args(t)[0]
+	}
+	if !strings.HasPrefix(e.T.Op(t), "call:") || strings.HasPrefix(e.T.Op(t), "call:errorsmod.") || strings.HasPrefix(e.T.Op(t), "call:errors.") || strings.HasPrefix(e.T.Op(t), "call:fmt.") {
+		return 0, false
+	}
+	if r.Atoms.Has(e.T.Mk("fail", t)) {
+		return 0, false
+	}
+	return t, true
+}
+
+// successAtoms are the facts of a return class under the assumption that the
+// function returned a nil error: for a forwarded error that means the inner
+// call (and every wrapper recorded as returning its error) succeeded.
+func successAtoms(e *interp.Engine, r *interp.Ret) term.Set {
+	atoms := r.Atoms
+	if t, ok := forwardedCall(e, r); ok && e.T.Op(r.Results[len(r.Results)-1]) != "nil" {
+		last := r.Results[len(r.Results)-1]
+		atoms = atoms.Add(e.T.Mk("ok", t))
+		for _, at := range r.Atoms {
+			tm := e.T.Get(at)
+			if tm.Op == "errvia" && tm.Args[1] == last {
+				atoms = atoms.Add(e.T.Mk("ok", tm.Args[0]))
+			}
+		}
+	}
+	return atoms
 }
 
 // HasAtom selects return alternatives containing an atom matching the pattern.
